@@ -254,11 +254,12 @@ def findOpen : Nat → List RTok → Option (List RTok)
 /-- second loop: walk back over `name :: * &` to the start of the declaration -/
 def declWalk : Bool → List RTok → Bool
   | _, [] => false
-  | moved, s :: r =>
+  | moved, [s] =>
+    if !(s.name || s.str = [':', ':'] || s.op = '*' || s.op = '&') then false else moved && s.name
+  | moved, s :: p :: r =>
     if !(s.name || s.str = [':', ':'] || s.op = '*' || s.op = '&') then false
-    else match r with
-      | [] => moved && s.name
-      | p :: _ => if isOneOf p ";{}:" then moved && s.name else declWalk true r
+    else if isOneOf p ";{}:" then moved && s.name
+    else declWalk true (p :: r)
 
 /-- "don't combine &= if it is a anonymous reference parameter with default value" -/
 def isFuncDeclRef (prev : List RTok) : Bool :=
@@ -266,66 +267,93 @@ def isFuncDeclRef (prev : List RTok) : Bool :=
   | some (f :: r) => f.name && declWalk false (f :: r)
   | _ => false
 
+/-- the ellipsis test: three `.` tokens in consecutive columns (the lines are not compared) -/
+def ellTest (tok : RTok) (rest : List RTok) : Bool :=
+  match rest with
+  | n1 :: n2 :: _ => n1.op = '.' && n1.col = tok.col + 1 && n2.op = '.' && n2.col = tok.col + 2
+  | _ => false
+
+/-- "float literals..": a number on the same line in front of the `.`, then a suffix-like token behind it -/
+def floatMerge (prev : List RTok) (tok : RTok) (rest : List RTok) : List RTok × RTok × List RTok :=
+  match prev with
+  | p :: pr =>
+    if p.number && sameline p tok && !(p.str.any fun c => c = '.' || c = '_') then
+      match rest with
+      | n :: r =>
+        if sameline (tok.setstr (p.str ++ ['.'])) n &&
+            (isFloatSuffix n || (startsWithOneOf n "AaBbCcDdEeFfPp" && !isAltAndBitandBitor (tok.setstr (p.str ++ ['.'])) n r))
+        then (pr, tok.setstr (p.str ++ ['.'] ++ n.str), r)
+        else (pr, tok.setstr (p.str ++ ['.']), rest)
+      | [] => (pr, tok.setstr (p.str ++ ['.']), [])
+    else (prev, tok, rest)
+  | [] => (prev, tok, rest)
+
+/-- `if (tok->next && tok->next->number)`: a number behind the dot is appended (no position is read) -/
+def dotNumber (s : List RTok × RTok × List RTok) : List RTok × RTok × List RTok :=
+  match s.2.2 with
+  | n :: r => if n.number then (s.1, s.2.1.setstr (s.2.1.str ++ n.str), r) else s
+  | [] => s
+
 /-- the `if (tok->op == '.')` block.  Result: (`continue` taken, tokens before, current, tokens after) -/
 def dotBlock (prev : List RTok) (tok : RTok) (rest : List RTok) : Bool × List RTok × RTok × List RTok :=
   if tok.op = '.' then
-    let ell := match rest with
-      | n1 :: n2 :: _ => n1.op = '.' && n1.col = tok.col + 1 && n2.op = '.' && n2.col = tok.col + 2
-      | _ => false
-    if ell then (true, prev, tok.setstr ['.', '.', '.'], rest.drop 2)
-    else
-      let s1 : List RTok × RTok × List RTok :=
-        match prev with
-        | p :: pr =>
-          if p.number && sameline p tok && !(p.str.any fun c => c = '.' || c = '_') then
-            let tok' := tok.setstr (p.str ++ ['.'])
-            match rest with
-            | n :: r =>
-              if sameline tok' n && (isFloatSuffix n || (startsWithOneOf n "AaBbCcDdEeFfPp" && !isAltAndBitandBitor tok' n r))
-              then (pr, tok'.setstr (tok'.str ++ n.str), r)
-              else (pr, tok', rest)
-            | [] => (pr, tok', [])
-          else (prev, tok, rest)
-        | [] => (prev, tok, rest)
-      match s1.2.2 with
-      | n :: r => if n.number then (false, s1.1, s1.2.1.setstr (s1.2.1.str ++ n.str), r) else (false, s1)
-      | [] => (false, s1)
+    if ellTest tok rest then (true, prev, tok.setstr ['.', '.', '.'], rest.drop 2)
+    else (false, dotNumber (floatMerge prev tok rest))
   else (false, prev, tok, rest)
 
-/-- "match: [0-9.]+E [+-] [0-9]+" -/
+/-- a number that ends in an exponent marker: decimal `…e`/`…E` (not octal), hexadecimal `…p`/`…P` -/
+def expTrig (s : Str) : Bool :=
+  let last := s.getLast?.getD '\x00'
+  tNumber s && !isOct s && ((!isHex s && (last = 'E' || last = 'e')) || (isHex s && (last = 'P' || last = 'p')))
+
+/-- "match: [0-9.]+E [+-] [0-9]+" (no position is read) -/
 def expBlock (tok : RTok) (rest : List RTok) : RTok × List RTok :=
-  let last := tok.str.getLast?.getD '\x00'
-  if tok.number && !isOct tok.str &&
-      ((!isHex tok.str && (last = 'E' || last = 'e')) || (isHex tok.str && (last = 'P' || last = 'p'))) then
+  if expTrig tok.str then
     match rest with
     | n1 :: n2 :: r => if isOneOf n1 "+-" && n2.number then (tok.setstr (tok.str ++ [n1.op] ++ n2.str), r) else (tok, rest)
     | _ => (tok, rest)
   else (tok, rest)
 
+/-- is the first token of the list a number (`tok->previous->number` / `tok->next->next->number`) -/
+def headNumber (l : List RTok) : Bool :=
+  match l with
+  | p :: _ => p.number
+  | [] => false
+
+/-- the guard of the operator merges: two one-character operator tokens, same line, consecutive columns -/
+def opGuard (tok n : RTok) : Bool :=
+  !(tok.op = '\x00' || n.op = '\x00') && sameline tok n && tok.col + 1 = n.col
+
+/-- the operator merges behind the guard (`n` = next token, `r` = the tokens after it); no position is read -/
+def opMerge (prev : List RTok) (scopeTop : Bool) (tok n : RTok) (r : List RTok) : RTok × List RTok :=
+  if n.op = '=' && isOneOf tok "=!<>+-*/%&|^" then
+    if tok.op = '&' && !scopeTop && isFuncDeclRef prev then (tok, n :: r)
+    else (tok.setstr (tok.str ++ ['=']), r)
+  else if (tok.op = '|' || tok.op = '&') && tok.op = n.op then (tok.setstr (tok.str ++ n.str), r)
+  else if tok.op = ':' && n.op = ':' then (tok.setstr (tok.str ++ n.str), r)
+  else if tok.op = '-' && n.op = '>' then (tok.setstr (tok.str ++ n.str), r)
+  else if (tok.op = '<' || tok.op = '>') && tok.op = n.op then
+    match r with
+    | e :: e2 :: r2 =>
+      if e.op = '=' && e2.op ≠ '=' then (tok.setstr (tok.str ++ n.str ++ e.str), e2 :: r2)
+      else (tok.setstr (tok.str ++ n.str), r)
+    | _ => (tok.setstr (tok.str ++ n.str), r)
+  else if (tok.op = '+' || tok.op = '-') && tok.op = n.op then
+    if headNumber prev then (tok, n :: r)
+    else if headNumber r then (tok, n :: r)
+    else (tok.setstr (tok.str ++ n.str), r)
+  else (tok, n :: r)
+
 /-- the adjacency-guarded operator merges -/
 def opBlock (prev : List RTok) (scopeTop : Bool) (tok : RTok) (rest : List RTok) : RTok × List RTok :=
   match rest with
   | [] => (tok, rest)
-  | n :: r =>
-    if tok.op = '\x00' || n.op = '\x00' then (tok, rest)
-    else if !sameline tok n then (tok, rest)
-    else if tok.col + 1 ≠ n.col then (tok, rest)
-    else if n.op = '=' && isOneOf tok "=!<>+-*/%&|^" then
-      if tok.op = '&' && !scopeTop && isFuncDeclRef prev then (tok, rest)
-      else (tok.setstr (tok.str ++ ['=']), r)
-    else if (tok.op = '|' || tok.op = '&') && tok.op = n.op then (tok.setstr (tok.str ++ n.str), r)
-    else if tok.op = ':' && n.op = ':' then (tok.setstr (tok.str ++ n.str), r)
-    else if tok.op = '-' && n.op = '>' then (tok.setstr (tok.str ++ n.str), r)
-    else if (tok.op = '<' || tok.op = '>') && tok.op = n.op then
-      let tok' := tok.setstr (tok.str ++ n.str)
-      match r with
-      | e :: e2 :: r2 => if e.op = '=' && e2.op ≠ '=' then (tok'.setstr (tok'.str ++ e.str), e2 :: r2) else (tok', r)
-      | _ => (tok', r)
-    else if (tok.op = '+' || tok.op = '-') && tok.op = n.op then
-      if (match prev with | p :: _ => p.number | [] => false) then (tok, rest)
-      else if (match r with | nn :: _ => nn.number | [] => false) then (tok, rest)
-      else (tok.setstr (tok.str ++ n.str), r)
-    else (tok, rest)
+  | n :: r => if opGuard tok n then opMerge prev scopeTop tok n r else (tok, rest)
+
+/-- `prev` skipped back over `;{}()`, then `prev && prev->op == ')'` (which can never hold: `)` is skipped too) -/
+def scopeProbe : List RTok → Bool
+  | [] => false
+  | t :: r => if isOneOf t ";{}()" then scopeProbe r else t.op = ')'
 
 def scopeTop (scope : List Bool) : Bool := scope.head?.getD false
 
@@ -335,9 +363,7 @@ def combineStep (prev : List RTok) (scope : List Bool) (tok : RTok) (rest : List
     List RTok × List Bool × List RTok :=
   if tok.op = '{' then
     if scopeTop scope then (tok :: prev, true :: scope, rest)
-    else
-      let p := prev.dropWhile fun t => isOneOf t ";{}()"
-      (tok :: prev, (match p with | t :: _ => t.op = ')' | [] => false) :: scope, rest)
+    else (tok :: prev, scopeProbe prev :: scope, rest)
   else if tok.op = '}' then
     (tok :: prev, if scope.length > 1 then scope.drop 1 else scope, rest)
   else
@@ -364,5 +390,95 @@ def lexAll (src : List Char) : Option (List RTok) := (lexRaw src).map combine
 
 /-- … and after `removeComments()`: the token stream the preprocessor starts from -/
 def tokens (src : List Char) : Option (List RTok) := (lexAll src).map removeComments
+
+/-! ## 3. Layouts: a source text as a sequence of lexical elements
+
+`Elem` is what a source text consists of for `readfile`: white space, newlines, comments, words (names /
+numbers), single operator characters and quoted literals.  `renderE` prints a sequence, `placeE` is the
+position function (where each token element starts), `elemsOK` the (decidable) well-formedness of a
+sequence: every element is lexically complete and no two neighbours fuse. -/
+
+inductive Elem
+  | ws (c : Char)                    -- one white-space byte other than a newline
+  | nl                               -- `\n`
+  | lcom (body : Str)                -- `//` ++ body
+  | bcom (body : Str)                -- `/*` ++ body ++ `*/`
+  | word (s : Str)                   -- name or number: a run of name characters
+  | op (c : Char)                    -- one operator / punctuation byte
+  | lit (q : Char) (inner : Str)     -- q ++ inner, `inner` ends with the closing quote
+  deriving DecidableEq, Repr, Inhabited
+
+def Elem.text : Elem → Str
+  | .ws c => [c]
+  | .nl => ['\n']
+  | .lcom b => '/' :: '/' :: b
+  | .bcom b => '/' :: '*' :: (b ++ ['*', '/'])
+  | .word s => s
+  | .op c => [c]
+  | .lit q i => q :: i
+
+/-- does the element produce a token (comments do) -/
+def Elem.isTok : Elem → Bool
+  | .ws _ => false
+  | .nl => false
+  | _ => true
+
+def renderE (es : List Elem) : Str := es.flatMap Elem.text
+
+/-- position function: the tokens of the sequence when its first byte is at (line, col) -/
+def placeE : Nat → Nat → List Elem → List RTok
+  | _, _, [] => []
+  | l, c, e :: r =>
+    let lc := adjust l c e.text
+    if e.isTok then ⟨e.text, l, c⟩ :: placeE lc.1 lc.2 r else placeE lc.1 lc.2 r
+
+/-- no `*/` inside a block-comment body -/
+def noClose : Str → Bool
+  | [] => true
+  | '*' :: '/' :: _ => false
+  | _ :: r => noClose r
+
+def litOK (q : Char) (inner : Str) : Bool :=
+  match scanStr q false false inner with
+  | .ok s [] => s == inner
+  | _ => false
+
+def elemOK : Elem → Bool
+  | .ws c => c.toNat ≤ 32 && c != '\n' && c != '\r'
+  | .nl => true
+  | .lcom b => b.all fun c => c != '\n' && c != '\\' && c != '\r'
+  | .bcom b => noClose b && !hasBsNl ('/' :: '*' :: (b ++ ['*', '/'])) && !b.contains '\r'
+  | .word s => s != [] && s.all isNameChar && !isStringLiteralPrefix s
+  | .op c => c.toNat < 128 && c.toNat > 32 && !isNameChar c && c != '#' && c != '\\' && c != '"' && c != '\''
+  | .lit q i => (q = '"' || q = '\'') && litOK q i && !i.contains '\r'
+
+/-- what may follow a word: not a name character, and no `'` behind a number (digit separator) -/
+def wordStop (num : Bool) (rest : List Char) : Bool :=
+  match rest with
+  | [] => true
+  | c :: _ => !isNameChar c && !(num && c = '\'')
+
+/-- a `//` comment runs to the end of its line -/
+def lineEnd : List Char → Bool
+  | [] => true
+  | c :: _ => c = '\n'
+
+/-- the element is not changed by the bytes that follow it -/
+def startsOK (e : Elem) (rest : List Char) : Bool :=
+  match e with
+  | .word s => wordStop (match s with | d :: _ => d.isDigit | [] => false) rest
+  | .op c => !(c = '/' && (rest.head? = some '/' || rest.head? = some '*'))
+  | .lcom _ => lineEnd rest
+  | _ => true
+
+def elemsOK : List Elem → Bool
+  | [] => true
+  | e :: r => elemOK e && startsOK e (renderE r) && elemsOK r
+
+/-! ## 4. Relocation of tokens (what a layout edit does to a token list) -/
+
+/-- move every token to the position `φ` assigns to its old position; spellings are kept -/
+def reloc (φ : Nat × Nat → Nat × Nat) (t : RTok) : RTok :=
+  { t with line := (φ (t.line, t.col)).1, col := (φ (t.line, t.col)).2 }
 
 end Cppcheck.Lexer
